@@ -114,6 +114,14 @@ func main() {
 			os.Exit(2)
 		}
 		fn(o, rand.New(rand.NewSource(*seed)), *tier == "thorough")
+		seenRej := map[string]bool{}
+		for _, f := range corpusRejected {
+			if !seenRej[f] {
+				seenRej[f] = true
+				o.do("fen dec " + runesHex(f))
+				o.Count("corpus-fen-REJECTED")
+			}
+		}
 	}
 	o.ops.Flush()
 	o.impl.Flush()
